@@ -2,4 +2,4 @@
 From Coq Require Import ExtrOcamlBasic.
 From Coq Require Extraction.
 From Muscle Require Import Conc.Pool Conc.RefCnt.
-Extraction "refcnt_model.ml" step run_op run_sched init_state ev_is_bad free_nodes.
+Extraction "refcnt_model.ml" step run_op run_sched init_state ev_is_bad free_nodes fork_state next_silent thread_done.
